@@ -66,6 +66,22 @@ def reserve(F, R, d):
             # refusal
             if d.ver == 'v3':
                 sv = [s for bi, j, s in agg_sites(b, r'^error::SpecViolation$') if bi in dup_region and s['rv']['variant'].startswith('PacketId_2_2_1_3')]
+                if not sv:
+                    # the violation may be handed in as an argument of a (spliced) helper shared by the SUBSCRIBE and UNSUBSCRIBE
+                    # arms: the value the refusal is built from is that aggregate, created outside the edge
+                    og_ = Origin(b)
+                    for bi, j, s in b.assigns():
+                        if bi not in dup_region:
+                            continue
+                        ops_ = s['rv'].get('fields') or [s['rv'].get('op')]
+                        for o_ in ops_:
+                            if o_ is not None and op_place(o_) is not None and any(l[0] == 'agg' and l[1].startswith('error::SpecViolation::PacketId_2_2_1_3') for l in og_.of_operand(o_)):
+                                sv.append(s)
+                    for bi, t_ in b.calls():
+                        if bi in dup_region:
+                            for o_ in t_.get('args') or []:
+                                if op_place(o_) is not None and any(l[0] == 'agg' and l[1].startswith('error::SpecViolation::PacketId_2_2_1_3') for l in og_.of_operand(o_)):
+                                    sv.append(t_)
                 R.ob('C11.reserve', '%s|%s|duplicate-edge|refusal' % (d.name, arm), bool(sv),
                      'the duplicate-id edge does not end in SpecViolation::PacketId_2_2_1_3_*', b.loc(ibi))
             else:
